@@ -7,7 +7,7 @@ use crate::probes::streamctl;
 use kira::info::MockInfoBuilder;
 use kira::sound::static_sound::StaticSoundData;
 use kira::sound::streaming::{StreamingSoundData, StreamingSoundHandle};
-use kira::sound::{FromFileError, PlaybackPosition, PlaybackState, Sound, SoundData};
+use kira::sound::{EndPosition, FromFileError, PlaybackPosition, PlaybackState, Region, Sound, SoundData};
 use kira::{Frame, Tween};
 use std::io::Cursor;
 use std::time::Duration;
@@ -313,7 +313,7 @@ impl Property for C18 {
 		"C18"
 	}
 	fn rule(&self) -> &'static str {
-		"four kinds of cases. (1) An independent RIFF/WAVE writer produces PCM 8/16/24/32-bit integer and 32/64-bit float files, 1..6 channels (plain and extensible headers), 0..5000 frames, any sample rate; StaticSoundData::from_cursor must return exactly the encoded sample rate, frame count and samples (exact for <= 24-bit integers and f32, 1 ulp for 32-bit integers and f64), mono duplicated, more than two channels rejected with the documented error. (2) The same bytes through StreamingSoundData::from_cursor, played at rate 1 on a device at the file's rate (decoder kept ahead through hook H2), must produce exactly the frames of the static decode, from any start position; with index-coded content and a sequence of seek_to calls (two fifths of them to packet starts, half of them preceded in the same gap by a seek_by, so that the decoder seeks twice in one step) every run of output frames after a seek must continue the file contiguously from the requested frame. (3) Every single-byte corruption (header-biased) and every truncation point of a valid file must give an error value, or - for truncations - a prefix of the original frames, and never more frames than the data chunk can hold; never a panic, and the watchdog catches hangs. (4) The audio files shipped under crates/examples/assets are streamed and loaded and compared frame for frame, with seeks. Non-trivial = a multi-packet file (> 1152 frames), a seek, or a corruption inside the header; distinct = distinct decoded choices."
+		"four kinds of cases. (1) An independent RIFF/WAVE writer produces PCM 8/16/24/32-bit integer and 32/64-bit float files, 1..6 channels (plain and extensible headers), 0..5000 frames, any sample rate; StaticSoundData::from_cursor must return exactly the encoded sample rate, frame count and samples (exact for <= 24-bit integers and f32, 1 ulp for 32-bit integers and f64), mono duplicated, more than two channels rejected with the documented error. (2) The same bytes through StreamingSoundData::from_cursor, played at rate 1 on a device at the file's rate (decoder kept ahead through hook H2), must produce exactly the frames of the static decode, from any start position; with index-coded content and a sequence of seek_to calls (two fifths of them to packet starts, half of them preceded in the same gap by a seek_by, so that the decoder seeks twice in one step) every run of output frames after a seek must continue the file contiguously from the requested frame; a third of the seek cases play inside a loop region (anywhere in the file, 1 frame to the whole file long), two thirds of their seeks aim at or past the loop end, where the target is folded back into the region: the only discontinuities allowed are the loop's own wrap and jumps to a (folded) target, and a valid file never reports a decoder error. (3) Every single-byte corruption (header-biased) and every truncation point of a valid file must give an error value, or - for truncations - a prefix of the original frames, and never more frames than the data chunk can hold; never a panic, and the watchdog catches hangs. (4) The audio files shipped under crates/examples/assets are streamed and loaded and compared frame for frame, with seeks. Non-trivial = a multi-packet file (> 1152 frames), a seek, or a corruption inside the header; distinct = distinct decoded choices."
 	}
 	fn assumptions(&self) -> Vec<String> {
 		vec![
@@ -404,12 +404,39 @@ impl Property for C18 {
 						pre_by.push(if src.chance(1, 2) { src.pick(&[1.0f64, -1.0]) * src.usize_in(1, 3000) as f64 / spec.rate as f64 } else { 0.0 });
 					}
 				}
-				ctx.describe(|| format!("streaming vs static of {spec:?}, start frame {start}, seeks {seeks:?}, each preceded by seek_by {pre_by:?}"));
+				// a third of the seek cases loop over a region of the file, and most of their seeks then aim
+				// at or past the loop end: the transport folds such a target back into the region while the
+				// decoder was sent to the unfolded one. (Drawn last, so that older tapes decode as before.)
+				let mut lp: Option<(usize, usize)> = None;
+				if with_seeks && !seeks.is_empty() && src.chance(1, 3) {
+					let ls = src.usize_in(0, spec.frames - 20000);
+					let le = match src.weighted(&[2, 2, 1]) {
+						0 => src.usize_in(ls + 1, spec.frames),
+						1 => (ls + src.usize_in(1, 4000)).min(spec.frames),
+						_ => spec.frames,
+					};
+					// playback stays in front of the loop end, so the decoder never runs out of file
+					start = start.min(le - 1);
+					for s in seeks.iter_mut() {
+						if le < spec.frames && src.chance(2, 3) {
+							let t = src.usize_in(le, spec.frames - 1);
+							s.1 = t as f64 / spec.rate as f64;
+						}
+					}
+					lp = Some((ls, le));
+				}
+				ctx.describe(|| format!("streaming vs static of {spec:?}, start frame {start}, seeks {seeks:?}, each preceded by seek_by {pre_by:?}{}", lp.map(|l| format!(", loop region {l:?}")).unwrap_or_default()));
 				let w = encode(&spec);
 				let st = StaticSoundData::from_cursor(Cursor::new(w.bytes.clone())).map_err(|e| Failure::simple("valid-file-loads", format!("{e:?}; {spec:?}")))?;
 				let data = monitor::catch(|| StreamingSoundData::from_cursor(Cursor::new(w.bytes.clone()))).map_err(|info| Failure::panic("decode-", &info))?;
 				let data = data.map_err(|e| Failure::simple("valid-file-streams", format!("a valid WAV file could not be opened for streaming: {e:?}; {spec:?}")))?;
-				let data = data.start_position(PlaybackPosition::Samples(start));
+				let mut data = data.start_position(PlaybackPosition::Samples(start));
+				if let Some((ls, le)) = lp {
+					data = data.loop_region(Region {
+						start: PlaybackPosition::Samples(ls),
+						end: EndPosition::Custom(PlaybackPosition::Samples(le)),
+					});
+				}
 				let (out, err, marks) = stream_all(data, spec.rate, spec.frames * (seeks.len() + 1) + 40000, &seeks, &pre_by)?;
 				ensure!(err.is_none(), "valid-file-streams", "streaming a valid file reported {err:?}; {spec:?}");
 				if seeks.is_empty() {
@@ -440,7 +467,28 @@ impl Property for C18 {
 					};
 					// the output is a sequence of contiguous runs of file frames; every run after a seek
 					// mark must begin at a requested frame
-					let targets: Vec<usize> = seeks.iter().map(|(_, p)| (p * spec.rate as f64).round() as usize).collect();
+					let raw_targets: Vec<usize> = seeks.iter().map(|(_, p)| (p * spec.rate as f64).round() as usize).collect();
+					// inside a loop region a seek target is folded into the region: down by whole region
+					// lengths when it lies at or past the loop end, up when it lies before the loop start
+					// and behind the playhead (which of the two applies depends on where playback is when
+					// the command is read, so the unfolded target is accepted too)
+					let folded = |t: usize| -> Vec<usize> {
+						let mut v = vec![t];
+						if let Some((ls, le)) = lp {
+							let (mut d, mut u) = (t, t);
+							while d >= le {
+								d -= le - ls;
+							}
+							while u < ls {
+								u += le - ls;
+							}
+							v.push(d);
+							v.push(u);
+						}
+						v
+					};
+					let targets: Vec<usize> = raw_targets.iter().flat_map(|t| folded(*t)).collect();
+					let last_targets: Vec<usize> = raw_targets.last().map(|t| folded(*t)).unwrap_or_default();
 					let mut prev: Option<usize> = None;
 					let mut first_index: Option<usize> = None;
 					let mut jumps = vec![];
@@ -466,27 +514,32 @@ impl Property for C18 {
 						}
 					}
 					// the last seek is never superseded: playback must end up at its target
-					if let Some(last) = targets.last() {
+					if let Some(last_raw) = raw_targets.last() {
 						// (a seek whose target happens to be the very frame the decoder would have delivered
 						// next leaves no discontinuity: the ring holds `pushed` frames - one of them the
 						// pre-seeded silent one - when the command is written)
 						let invisible = marks.last().map(|(_, pushed)| {
 							let next_out = (*pushed as usize).saturating_sub(1);
-							(next_out.saturating_sub(2)..=next_out + 2).any(|i| i > 0 && out.get(i).and_then(&decode_index) == Some(*last) && out.get(i - 1).and_then(&decode_index) == Some(last.wrapping_sub(1)))
+							last_targets.iter().any(|last| (next_out.saturating_sub(2)..=next_out + 2).any(|i| i > 0 && out.get(i).and_then(&decode_index) == Some(*last) && out.get(i - 1).and_then(&decode_index) == Some(last.wrapping_sub(1))))
 						}).unwrap_or(false);
-						let took_effect = jumps.iter().any(|(_, _, to)| to == last) || first_index == Some(*last) || invisible;
+						let last = last_raw;
+						let took_effect = jumps.iter().any(|(_, _, to)| last_targets.contains(to)) || first_index.map(|f| last_targets.contains(&f)).unwrap_or(false) || invisible;
 						if !took_effect {
 							let sig = if marks.last().map(|m| m.0) == Some(true) { "streaming-seek-takes-effect:decoder-already-finished" } else { "streaming-seek-takes-effect" };
 							return Err(Failure::new("streaming-seek-takes-effect", sig, format!("seek_to(file frame {last}) never took effect: the only jumps in the output are {jumps:?}; {spec:?} seeks {seeks:?}")));
 						}
 					}
 					for (i, from, to) in &jumps {
-						ensure!(targets.contains(to), "seek-lands-on-requested-frame", "at output frame {i} playback jumped from file frame {from} to {to}, which is none of the requested seek targets {targets:?}; {spec:?}");
+						let wrap = lp.map(|(ls, le)| *from == le - 1 && *to == ls).unwrap_or(false);
+						ensure!(targets.contains(to) || wrap, "seek-lands-on-requested-frame", "at output frame {i} playback jumped from file frame {from} to {to}, which is none of the requested seek targets {targets:?} (loop region {lp:?}); {spec:?}");
 					}
 				}
 				let mut classes = vec!["streaming-vs-static"];
 				if with_seeks {
 					classes.push("seeks");
+					if lp.is_some() {
+						classes.push("seeks-in-a-loop-region");
+					}
 				}
 				Ok(CaseInfo::new(&src, spec.frames > 1152 || with_seeks, classes))
 			}
